@@ -109,6 +109,25 @@ func ReturnResults(ret *ssa.Return) []ssa.Value {
 		if !ok {
 			continue
 		}
+		// only a cell that is written and read as a whole: a struct local whose fields are
+		// updated in place (msg.From = …; return msg) is not the value last stored to it
+		whole := true
+		if al.Referrers() != nil {
+			for _, ref := range *al.Referrers() {
+				switch x := ref.(type) {
+				case *ssa.Store:
+					if x.Addr != ssa.Value(al) {
+						whole = false
+					}
+				case *ssa.UnOp, *ssa.DebugRef, *ssa.MakeClosure:
+				default:
+					whole = false
+				}
+			}
+		}
+		if !whole {
+			continue
+		}
 		// latest store to the local in this block before the load; for heap (captured)
 		// cells only if no call intervenes
 		li := idxIn(b, r.(ssa.Instruction))
